@@ -7,8 +7,9 @@ export CARGO_NET_OFFLINE=true
 python3 tools/extract_consts.py
 python3 tools/rs2lean.py
 python3 tools/fibex_vocab.py
+python3 tools/stats_tables.py
 (cd lean && lake build DltVerif driver)
 # the tie modules are generated from /repo's source; whether they check is reported by the checks
-(cd lean && lake build DltVerif.Props.ConstsTie DltVerif.Props.CodesTie DltVerif.Props.CodesTieEnc DltVerif.Props.CodesTieDec DltVerif.Props.CodesTieLvl DltVerif.Props.FibexTie) || echo "note: a tie module does not build against the current source (reported by ./check)"
+(cd lean && lake build DltVerif.Props.ConstsTie DltVerif.Props.CodesTie DltVerif.Props.CodesTieEnc DltVerif.Props.CodesTieDec DltVerif.Props.CodesTieLvl DltVerif.Props.FibexTie DltVerif.Props.StatsTie) || echo "note: a tie module does not build against the current source (reported by ./check)"
 (cd harness && cargo build --release --offline)
 echo "setup ok"
